@@ -2,7 +2,7 @@
 
 CHECK = {
     'pkg': '.', 'sim': True, 'level': 'fault_enumeration',
-    'parts': [{'name': 'main', 'test': 'TestVF_C12', 'quick': {'shards': 8, 'checks': 10}, 'thorough': {'shards': 16, 'checks': 100}}],
+    'parts': [{'name': 'main', 'test': 'TestVF_C12', 'quick': {'shards': 8, 'checks': 10}, 'thorough': {'shards': 16, 'checks': 60}}],
     'timeout_s': {'quick': 1500, 'thorough': 8 * 3600},
     'rule': ('a case = one scenario instance drawn by rapid (async producer with a fault script / partition consumers on one broker / consumer group with 1-3 members, rebalances, '
              'cancels and fencing / offset manager action sequence / client with a 1 ms background refresh), optionally with "the whole cluster becomes unreachable (refusing or silent) '
